@@ -718,3 +718,208 @@ class CurrentView(Obj):
 
 
 KERNELS += [Invalidate]
+
+
+# ------------------------------------------------------------------ fixed_copy_value_from: a fixed-shape parent is modified only through a child
+#
+# "a parent is modified whenever one of its children is, and a fixed-shape parent only then": the whole-value write of a
+# bundle / fixed list reports "newly modified" (on which the caller stamps the parent) exactly when some child accepted a
+# value, and every accepting child is stamped at the write time and marked valid.
+
+FTU = "src/hgraph/types/metadata/ts_data_fixed_structured_ops.cpp"
+qf = z3.Int("qf")
+B_ = z3.BoolSort()
+
+
+class FnPtr(Obj):
+    cls = "function pointer"
+
+    def __init__(self, fn):
+        Obj.__init__(self, name="fn_ptr")
+        self.fn = fn
+
+    def call(self, I, args, n):
+        return self.fn(I, args, n)
+
+
+class FixedCopyValueFrom(Kernel):
+    tu = FTU
+    name = "ts_data_fixed_structured_ops.cpp:fixed_copy_value_from"
+    fn_name = "fixed_copy_value_from"
+    filter = "fixed_copy_value_from"
+    property_ids = ("C04",)
+    scope = {"lo": 0, "hi": 3}
+    title = "fixed_copy_value_from: the parent is reported newly modified iff some child accepted a value; accepting children are " \
+            "stamped at the write time and marked valid"
+
+    def setup(self, I):
+        ctx = I.ctx
+        self.T = z3.Int("modified_time")
+        self.n = z3.Int("element_count")
+        ctx.assume(self.n >= 0)
+        self.src_has = z3.Array("source_child_has_value", I_, B_)
+        self.accepts = z3.Array("child_copy_accepted", I_, B_)
+        self.track_null = z3.Array("child_tracking_null", I_, B_)
+        self.fresh_mark = z3.Array("child_record_modified_is_new", I_, B_)
+        self.memory_null, self.source_has, self.schema_ok, self.count_ok = (z3.Bool(nm) for nm in (
+            "memory_null", "source_has_value", "source_schema_matches", "source_child_count_matches"))
+        g = Obj("ghost", "fg")
+        self.g = g
+        ctx.store[(g.oid, "stamped")] = z3.K(I_, z3.IntVal(-9))      # child -> time recorded by this call
+        ctx.store[(g.oid, "marked_valid")] = z3.K(I_, z3.BoolVal(False))
+        ctx.store[(g.oid, "copied")] = z3.K(I_, z3.IntVal(0))
+        k = self
+        state = Obj("FixedState", "state")
+        vs = Obj("ValueTypeMetaData", "value_schema")
+        sch = Obj("TSValueTypeMetaData", "schema")
+        ctx.store[(sch.oid, "value_schema")] = Ptr(vs)
+        ctx.store[(state.oid, "schema")] = Ptr(sch)
+        state.m_element_count = lambda I_2, a, n: k.n
+        state.m_element_type = lambda I_2, a, n: ChildRef(I_2.ctx.rv(a[0]))
+        self.state = state
+        source = Obj("ValueView", "source")
+        source.m_has_value = lambda I_2, a, n: k.source_has
+        source.m_schema = lambda I_2, a, n: SchemaTok(k)
+        vals = Obj("IndexedView", "source_values")
+        vals.m_size = lambda I_2, a, n: SizeTok(k)
+
+        def at(I_2, a, n):
+            i = I_2.ctx.rv(a[0])
+            v = Obj("ValueView", "source_value")
+            v.index = i
+            v.m_has_value = lambda I_3, a3, n3: k.src_has[i]
+            return v
+        vals.m_at = at
+        source.m_as_indexed_view = lambda I_2, a, n: vals
+        self.memory = Obj("memory", "memory")
+        return None, {"context": Ptr(Obj("context", "context")), "memory": Ptr(self.memory, self.memory_null), "source": source,
+                      "modified_time": self.T}
+
+    def function_handler(self, name, node, callee_node):
+        k, g = self, self.g
+        if name == "ctx":
+            return lambda I, a, n: Ptr(k.state)
+        if name == "child_ops":
+            def ops(I, a, n):
+                c = I.ctx.rv(a[0])
+                i = c.index
+                o = Obj("TSDataOps", "child_ops")
+                I.ctx.store[(o.oid, "context")] = Ptr(Obj("ctx", "child_context"))
+
+                def copy(I_2, args, n2):
+                    cc = I_2.ctx
+                    cc.oblige("callee-pre.child-copy-at-the-write-time", cc.rv(args[3]) == k.T, kind="callee-pre")
+                    cc.write(Loc((g.oid, "copied")), z3.Store(cc.store[(g.oid, "copied")], i, cc.store[(g.oid, "copied")][i] + 1))
+                    return k.accepts[i]
+
+                def tracking(I_2, args, n2):
+                    t = Obj("TSDataTracking", "child_tracking")
+
+                    def rec(I_3, a3, n3):
+                        c3 = I_3.ctx
+                        c3.write(Loc((g.oid, "stamped")), z3.Store(c3.store[(g.oid, "stamped")], i, c3.rv(a3[0])))
+                        return k.fresh_mark[i]
+                    t.m_record_modified = rec
+                    return Ptr(t, k.track_null[i])
+                I.ctx.store[(o.oid, "copy_value_from_impl")] = FnPtr(copy)
+                I.ctx.store[(o.oid, "mutable_tracking_impl")] = FnPtr(tracking)
+                return o
+            return ops
+        if name == "child_data":
+            return lambda I, a, n: Ptr(Obj("memory", "child_memory"))
+        if name == "mark_tsb_value_field_valid":
+            def mark(I, a, n):
+                c = I.ctx
+                i = c.rv(a[2])
+                c.write(Loc((g.oid, "marked_valid")), z3.Store(c.store[(g.oid, "marked_valid")], i, True))
+                return VOID
+            return mark
+        if name == "fixed_tracking":
+            def ft(I, a, n):
+                t = Obj("TSDataTracking", "parent_tracking")
+                I.ctx.store[(t.oid, "last_modified_time")] = z3.Int("parent_last_modified_time")
+                return Ptr(t)
+            return ft
+        return Kernel.function_handler(self, name, node, callee_node)
+
+    def done(self, ctx, upto):
+        st, mv, cp = (ctx.store[(self.g.oid, nm)] for nm in ("stamped", "marked_valid", "copied"))
+        took = z3.And(self.src_has[qf], self.accepts[qf])
+        return z3.ForAll([qf], z3.Implies(z3.And(qf >= 0, qf < upto), z3.And(
+            cp[qf] == z3.If(self.src_has[qf], 1, 0), z3.Implies(took, z3.And(st[qf] == self.T, mv[qf])),
+            z3.Implies(z3.Not(took), z3.And(st[qf] == -9, z3.Not(mv[qf]))))))
+
+    def inv(self, I, ctx):
+        i = ctx.rv(self.local(I, "index"))
+        st, mv, cp = (ctx.store[(self.g.oid, nm)] for nm in ("stamped", "marked_valid", "copied"))
+        yield "children-below-the-cursor-handled;the-rest-untouched", z3.And(
+            i >= 0, i <= self.n, self.done(ctx, i),
+            z3.ForAll([qf], z3.Implies(z3.Or(qf < 0, qf >= i), z3.And(cp[qf] == 0, st[qf] == -9, z3.Not(mv[qf])))))
+        try:
+            flag = ctx.rv(self.local(I, "newly_modified"))
+        except Gap:
+            flag = None      # the accumulator was renamed or removed: the postcondition decides without this hint
+        if flag is not None:
+            yield "flag<=>some-child-below-the-cursor-accepted", flag == z3.Exists(
+                [qf], z3.And(qf >= 0, qf < i, self.src_has[qf], self.accepts[qf]))
+
+    def frame(self, I, ctx):
+        return [Loc((self.g.oid, nm)) for nm in ("stamped", "marked_valid", "copied")]
+
+    @property
+    def loops(self):
+        return {0: LoopSpec(self.inv, self.frame)}
+
+    def post(self, I, ret):
+        ctx = I.ctx
+        ret = ret if z3.is_bool(ret) else ret != 0
+        some = z3.Exists([qf], z3.And(qf >= 0, qf < self.n, self.src_has[qf], self.accepts[qf]))
+        ctx.oblige("ensures.parent-newly-modified<=>some-child-accepted-a-value[C04 a parent is modified whenever one of its children "
+                   "is, and a fixed-shape parent only then]", ret == some, kind="post-normal")
+        ctx.oblige("ensures.every-supplied-child-copied-once;accepting-children-stamped-at-the-write-time-and-marked-valid[C04]",
+                   self.done(ctx, self.n), kind="post-normal")
+
+    def post_exc(self, I, exc):
+        I.ctx.oblige("raises.only-for-a-malformed-request-or-a-child-that-breaks-its-contract",
+                     z3.BoolVal(exc.cls in ("std::logic_error", "std::invalid_argument")), kind="post-exceptional")
+
+
+class ChildRef(Obj):
+    cls = "TSDataTypeRef(child)"
+
+    def __init__(self, index):
+        Obj.__init__(self, name="child")
+        self.index = index
+
+
+class SchemaTok(Obj):
+    cls = "schema*"
+    custom_binop = True
+
+    def __init__(self, k):
+        Obj.__init__(self, name="source_schema")
+        self.k = k
+
+    def binop(self, I, op, other):
+        e = self.k.schema_ok
+        return e if op == "==" else z3.Not(e)
+
+    rbinop = binop
+
+
+class SizeTok(Obj):
+    cls = "size"
+    custom_binop = True
+
+    def __init__(self, k):
+        Obj.__init__(self, name="source_size")
+        self.k = k
+
+    def binop(self, I, op, other):
+        e = self.k.count_ok
+        return e if op == "==" else z3.Not(e)
+
+    rbinop = binop
+
+
+KERNELS += [FixedCopyValueFrom]
